@@ -131,3 +131,73 @@ func TestVerifE7Latency(t *testing.T) {
 	}
 	fmt.Printf("E7-LATENCY cases=%d hist=%v\n", out.N, hist)
 }
+
+// ------------------------------------------------------------------ stream "less": the comparators of the sorted lists
+//
+// Op line:   less host <a> <b>   |   less topo <node nodeRegion nodeZone region zone> × 2      ("-" = empty string)
+// Impl line: 1 | 0 — what the real Less(0, 1) of every by-hostname comparator (they must agree) /
+// of ClientStatsByNodeTopology answers.
+
+func vfE7LessHost(a, b string) string {
+	rs := []bool{
+		clusterinfo.ChannelStatsByHost{ChannelStatsList: clusterinfo.ChannelStatsList{{Hostname: a}, {Hostname: b}}}.Less(0, 1),
+		clusterinfo.ClientsByHost{ClientStatsList: clusterinfo.ClientStatsList{{Hostname: a}, {Hostname: b}}}.Less(0, 1),
+		clusterinfo.TopicStatsByHost{TopicStatsList: clusterinfo.TopicStatsList{{Hostname: a}, {Hostname: b}}}.Less(0, 1),
+		clusterinfo.ProducersByHost{Producers: clusterinfo.Producers{{Hostname: a}, {Hostname: b}}}.Less(0, 1),
+		clusterinfo.ProducerTopics{{Topic: a}, {Topic: b}}.Less(0, 1),
+	}
+	for i, r := range rs {
+		if r != rs[0] {
+			return fmt.Sprintf("comparators-disagree %d %v", i, rs)
+		}
+	}
+	return vfE7B(rs[0])
+}
+
+func TestVerifE7Less(t *testing.T) {
+	out := vfOpen("less")
+	defer out.Close()
+	rng := vfNewRand(0xE71E)
+	hist := map[string]int{}
+	names := []string{"", "a", "b", "ab", "alpha", "beta", "Alpha", "a1", "a.b", "z", "N0", "N1", "n0"}
+	for _, a := range names {
+		for _, b := range names {
+			impl := vfE7LessHost(a, b)
+			out.Case(fmt.Sprintf("less host %s %s", vfE7S(a), vfE7S(b)), impl)
+			hist["host:"+impl]++
+		}
+	}
+	pool := []string{"", "r1", "r2", "z1", "z2", "a"}
+	n := vfEnvInt("VERIF_N", 300) * 4
+	for i := 0; i < n; i++ {
+		pick := func() string { return pool[rng.Intn(len(pool))] }
+		k := [2][5]string{}
+		node := []string{"N0", "N1", "N0"}[rng.Intn(3)]
+		nr, nz := pick(), pick()
+		for j := 0; j < 2; j++ {
+			k[j] = [5]string{node, nr, nz, pick(), pick()}
+			if rng.Intn(3) == 0 {
+				k[j][3], k[j][4] = nr, nz // in the node's own zone
+			} else if rng.Intn(3) == 0 {
+				k[j][3] = nr // in the node's region
+			}
+		}
+		if rng.Intn(4) == 0 {
+			k[1][0] = []string{"N0", "N1", "N2"}[rng.Intn(3)]
+			k[1][1], k[1][2] = pick(), pick()
+		}
+		mk := func(x [5]string) *clusterinfo.ClientStats {
+			return &clusterinfo.ClientStats{Node: x[0], NodeTopologyRegion: x[1], NodeTopologyZone: x[2], TopologyRegion: x[3], TopologyZone: x[4]}
+		}
+		impl := vfE7B(clusterinfo.ClientStatsByNodeTopology{ClientStatsList: clusterinfo.ClientStatsList{mk(k[0]), mk(k[1])}}.Less(0, 1))
+		var toks []string
+		for j := 0; j < 2; j++ {
+			for _, f := range k[j] {
+				toks = append(toks, vfE7S(f))
+			}
+		}
+		out.Case("less topo "+strings.Join(toks, " "), impl)
+		hist["topo:"+impl]++
+	}
+	fmt.Printf("E7-LESS cases=%d hist=%v\n", out.N, hist)
+}
